@@ -1,6 +1,17 @@
 //! C14: float <-> integer casts (floats as bit patterns).
+//!   to_f32 / to_f64 / from_f32 / from_f64            through `CastFrom::cast_from`
+//!   as_to_f32 / as_to_f64 / as_from_f32 / as_from_f64 through `As::as_`
+//!   prim_to_f32 / prim_to_f64 / prim_from_f32 / prim_from_f64
+//!        rustc's own `as` on the PRIMITIVE integer of the same width and signedness as the configuration
+//!        (8, 16, 32, 64, 128 bits): the reference the property names ("exactly like Rust's `as`"); no bnum
+//!        code involved.  The Lean side answers with the bnum model and the exact spec for that width.
+//! Every op takes an optional first argument `dbg` / `rel`: the request is then answered only by the build
+//! with that mode (the other one answers `skip`).
 use bnum_verif_harness::*;
-use bnum::cast::CastFrom;
+use bnum::cast::{As, CastFrom};
+
+fn f32_of(s: &str) -> f32 { f32::from_bits(u32::from_str_radix(s, 16).unwrap()) }
+fn f64_of(s: &str) -> f64 { f64::from_bits(u64::from_str_radix(s, 16).unwrap()) }
 
 macro_rules! ops {
     ($T:ty, $op:expr, $a:expr) => {{
@@ -8,8 +19,12 @@ macro_rules! ops {
         match $op {
             "to_f32" => Some(format!("{:x}", <f32 as CastFrom<$T>>::cast_from(<$T>::from_hex(a[0])).to_bits())),
             "to_f64" => Some(format!("{:x}", <f64 as CastFrom<$T>>::cast_from(<$T>::from_hex(a[0])).to_bits())),
-            "from_f32" => Some(<$T as CastFrom<f32>>::cast_from(f32::from_bits(u32::from_str_radix(a[0], 16).unwrap())).to_hex()),
-            "from_f64" => Some(<$T as CastFrom<f64>>::cast_from(f64::from_bits(u64::from_str_radix(a[0], 16).unwrap())).to_hex()),
+            "from_f32" => Some(<$T as CastFrom<f32>>::cast_from(f32_of(a[0])).to_hex()),
+            "from_f64" => Some(<$T as CastFrom<f64>>::cast_from(f64_of(a[0])).to_hex()),
+            "as_to_f32" => Some(format!("{:x}", As::as_::<f32>(<$T>::from_hex(a[0])).to_bits())),
+            "as_to_f64" => Some(format!("{:x}", As::as_::<f64>(<$T>::from_hex(a[0])).to_bits())),
+            "as_from_f32" => Some(As::as_::<$T>(f32_of(a[0])).to_hex()),
+            "as_from_f64" => Some(As::as_::<$T>(f64_of(a[0])).to_hex()),
             _ => None,
         }
     }};
@@ -24,9 +39,53 @@ macro_rules! imp {
     }};
 }
 
+/// rustc's `as` between the primitive integer `$P` and f32 / f64
+macro_rules! prim_ops {
+    ($P:ty, $op:expr, $a:expr) => {{
+        let a: &[&str] = $a;
+        match $op {
+            "prim_to_f32" => Some(format!("{:x}", (<$P>::from_hex(a[0]) as f32).to_bits())),
+            "prim_to_f64" => Some(format!("{:x}", (<$P>::from_hex(a[0]) as f64).to_bits())),
+            "prim_from_f32" => Some((f32_of(a[0]) as $P).to_hex()),
+            "prim_from_f64" => Some((f64_of(a[0]) as $P).to_hex()),
+            _ => None,
+        }
+    }};
+}
+
+fn prim(signed: bool, c: &str, op: &str, a: &[&str]) -> Option<String> {
+    let (w, n) = c.split_once('x')?;
+    let bits = w.parse::<u32>().ok()? * n.parse::<u32>().ok()?;
+    match (signed, bits) {
+        (false, 8) => prim_ops!(u8, op, a),
+        (false, 16) => prim_ops!(u16, op, a),
+        (false, 32) => prim_ops!(u32, op, a),
+        (false, 64) => prim_ops!(u64, op, a),
+        (false, 128) => prim_ops!(u128, op, a),
+        (true, 8) => prim_ops!(i8, op, a),
+        (true, 16) => prim_ops!(i16, op, a),
+        (true, 32) => prim_ops!(i32, op, a),
+        (true, 64) => prim_ops!(i64, op, a),
+        (true, 128) => prim_ops!(i128, op, a),
+        _ => None,
+    }
+}
+
 fn main() {
     serve(|op, cfg, args| {
         let (signed, c) = split_cfg(cfg);
+        let mut args = args;
+        if let Some(&m) = args.first() {
+            if m == "dbg" || m == "rel" {
+                if !mode_ok(m) {
+                    return Some("skip".into());
+                }
+                args = &args[1..];
+            }
+        }
+        if op.starts_with("prim_") {
+            return prim(signed, c, op, args);
+        }
         let f: Option<fn(bool, &str, &[&str]) -> Option<String>> = for_config!(c, imp);
         f.and_then(|f| f(signed, op, args))
     });
